@@ -609,7 +609,15 @@ def rule_mu(ctx):
             ("Option::None", ("call", "tau_star::tau_star_rule", (R, ("call", "tau_star::choose_fresh_global_variables", (P("$self"),)))))}
     got = {(c[-1][1], x) for c, x in ps}
     heads = {c[-1][0] for c, x in ps}
-    ctx.add("MU", "fallback", got == want and heads == {("match", NR)}, ctx.site(b),
+    ok_loop = got == want and heads == {("match", NR)}
+    # the same as one expression: rules.map(|r| natural_rule(r).unwrap_or_else(|| tau_star_rule(r, &globals)))
+    cv = ftpl.canon_iter(v)
+    el = ftpl._comp(dict(cv[2])["formulas"]) if ok and "formulas" in dict(cv[2]) else None
+    RA = ("at", ("place", "$self.rules"))
+    GL = ("call", "tau_star::choose_fresh_global_variables", (P("$self"),))
+    ok_iter = el is not None and el[:2] == ("call", "Option::unwrap_or_else") and el[2][0] == ("call", "natural::natural_rule", (RA,)) and \
+        el[2][1][0] == "closure" and el[2][1][2] == ("call", "tau_star::tau_star_rule", (RA, GL))
+    ctx.add("MU", "fallback", ok_loop or ok_iter, ctx.site(b),
             "mu: for every rule, the natural formula when natural_rule accepts it, otherwise tau_star_rule of the same rule with the global variables chosen for the whole program")
     # mu cannot fail: no Option / Result in its signature
     ctx.add("MU", "total", "Option" not in b.get("ret_ty", "") and "Result" not in b.get("ret_ty", ""), ctx.site(b), "mu returns a theory unconditionally: %s" % b.get("ret_ty"))
@@ -757,7 +765,7 @@ def rule_flow_err(ctx):
                 p_ = par
                 seen = 0
                 while p_ is not None and seen < 6:
-                    if p_.get("k") == "MethodCall" and p_.get("method") in ("expect", "map", "is_some", "collect"):
+                    if p_.get("k") == "MethodCall" and p_.get("method") in ("expect", "map", "is_some", "collect", "unwrap_or_else", "map_or_else"):
                         how = p_["method"]
                         break
                     if p_.get("k") == "Match" or p_.get("k") == "Let" or (p_.get("k") == "If"):
@@ -768,7 +776,7 @@ def rule_flow_err(ctx):
                         break
                     p_ = pm.get(id(p_))
                     seen += 1
-            ok = how in ("?", "returned") or allowed_other.get((caller, short)) == how or (how == "closure" and caller == "natural_b_atom") or (how == "match" and "mu" in caller) or (how in ("is_some",) and "regularity" in caller)
+            ok = how in ("?", "returned") or allowed_other.get((caller, short)) == how or (how == "closure" and caller == "natural_b_atom") or (how in ("match", "unwrap_or_else", "map_or_else") and "mu" in caller) or (how in ("is_some",) and "regularity" in caller)
             ctx.add("FLOW-ERR", "%s->%s:%s" % (caller, short, how), ok, ctx.site(b), "the Option of %s is consumed in %s by `%s`" % (short, caller, how))
     ctx.floor("FLOW-ERR", "option-call-sites", n, 6)
     # the expect sites: guarded by the second-kind test
